@@ -49,15 +49,16 @@ def make_stub(name):
 class LookupCase(Case):
     family = "plugin-lookup"
 
-    def __init__(self, cid, history, maxlen=8, second_manager=False, later=()):
+    def __init__(self, cid, history, maxlen=8, second_manager=False, later=(), via_context=False):
         """history: list of (registered name, universe key, prioritize); later: registrations made *after*
         a first lookup of the same string (the second lookup must see them)"""
         self.id, self.history, self.maxlen, self.second, self.later = cid, history, maxlen, second_manager, list(later)
+        self.via_context = via_context   # the managers are the defaults two OptimizerContext objects fill in
         if self.later:
             self.family = "plugin-lookup/interleaved"
 
     def describe(self):
-        return f"history={self.history} then_lookup_then={self.later} |method|<={self.maxlen} second_manager={self.second}"
+        return f"managers={'context defaults' if self.via_context else 'PluginManager()'} history={self.history} then_lookup_then={self.later} |method|<={self.maxlen} second_manager={self.second}"
 
     def inputs(self, env):
         return {"s": env.string("s", self.maxlen)}
@@ -66,7 +67,7 @@ class LookupCase(Case):
         from ropt.exceptions import ConfigError
         from ropt.plugins import PluginManager
 
-        pm = PluginManager()
+        pm = self.new_manager()
         before = [n for n, _ in pm.plugins("optimizer")]
         dup = []
         for reg_name, key, prio in self.history:
@@ -77,10 +78,20 @@ class LookupCase(Case):
                 dup.append(True)
         return pm, before, dup
 
+    def new_manager(self):
+        from ropt.plugins import PluginManager
+        if self.via_context:
+            from ropt.plan import OptimizerContext
+            return OptimizerContext(evaluator=lambda *a, **k: None).plugin_manager
+        return PluginManager()
+
     def run(self, env, inp):
         from ropt.exceptions import ConfigError
         from ropt.plugins import PluginManager
 
+        # the other manager exists before anything is registered on the first one
+        other = self.new_manager() if self.second else None
+        other_before = [n for n, _ in other.plugins("optimizer")] if other else None
         pm, before, dup = self.build()
         registry = list(pm.plugins("optimizer"))
         # every constant the symbolic string can meet in a dict or set
@@ -91,8 +102,6 @@ class LookupCase(Case):
             cands |= set(UNIVERSE[r[1]][0])
         set_candidates(cands)
         s = inp["s"]
-        other = PluginManager() if self.second else None
-        other_before = [n for n, _ in other.plugins("optimizer")] if other else None
         try:
             got = pm.get_plugin("optimizer", s)
             err = None
@@ -326,6 +335,7 @@ def build_cases(tier):
     add([("alpha", "alpha", False)], later=[("beta", "beta", True)])                         # lookup, prioritised add, lookup again
     add([], later=[("gamma", "gamma", True), ("alpha", "alpha", True)])
     add([("beta", "beta", False)], later=[("alpha", "alpha", False)], second_manager=True)
+    add([("alpha", "alpha", True)], second_manager=True, via_context=True)     # default managers of two contexts
     for hist, prefix in (([], "external/"), ([("alpha", "alpha", False)], "External/"), ([("d", "d", True)], "external/")):
         k += 1
         cases.append(ExternalCase(f"c19-{k:03d}", hist, prefix=prefix))
